@@ -37,6 +37,7 @@ func verifC19RoundTrip() {
 		{"https://a.example:8443/", "https", "a.example:8443", "a.example"},
 		{"http://b.example:8080/", "http", "b.example:8080", "b.example"},
 	}
+	_ = urls[0].host
 	u := urls[vInt(0, len(urls)-1)]
 	alpns := []string{"h2", "h3", "http/1.1", "x"}
 	nrec := vInt(0, 2+vTier())
@@ -83,6 +84,10 @@ func verifC19RoundTrip() {
 
 	t := NewTransport()
 	t.Resolver = &Resolver{}
+	withTLSConfig := vBool()
+	if withTLSConfig {
+		t.TLSConfig = &tls.Config{NextProtos: []string{"h2"}, MinVersion: tls.VersionTLS13}
+	}
 	var h3 *vH3
 	if vBool() {
 		h3 = &vH3{}
@@ -137,6 +142,9 @@ func verifC19RoundTrip() {
 		}
 	}
 	vAssert(*req.URL == origURL && req.Host == hostHdr, "the caller's request is not modified")
+	if withTLSConfig {
+		vAssert(len(t.TLSConfig.NextProtos) == 1 && t.TLSConfig.ServerName == "" && t.TLSConfig.EncryptedClientHelloConfigList == nil, "the transport's TLS configuration is not modified")
+	}
 	if wantH3 {
 		vAssert(h3.called, "HTTP/3 chosen when the most preferred usable record offers h3")
 		vAssert(err == nil && resp.Request == req, "the response is bound to the caller's request")
@@ -151,6 +159,22 @@ func verifC19RoundTrip() {
 			}
 			vAssert(ok, "only records offering h3 are handed to the HTTP/3 dialer")
 		}
+		// ... and every one of them, in order, with its ECH config list
+		var wantECH [][]byte
+		for _, h := range service {
+			for _, a := range h.ALPN {
+				if a == "h3" {
+					wantECH = append(wantECH, h.ECH)
+					break
+				}
+			}
+		}
+		vAssert(len(tr.result.HTTPS) == len(wantECH), "every record offering h3 is handed to the HTTP/3 dialer")
+		for i := range wantECH {
+			if i < len(tr.result.HTTPS) {
+				vAssert(vBytesEq(tr.result.HTTPS[i].ECH, wantECH[i]), "the h3 records keep their order and ECH config lists")
+			}
+		}
 		vAssert(h3.req.Host == wantAuthority, "the original authority (or the caller's Host override) is sent")
 		vAssert(h3.req.URL.Scheme == "https", "scheme upgraded when HTTPS records exist")
 		vReach("h3")
@@ -161,7 +185,36 @@ func verifC19RoundTrip() {
 	upgraded := len(service) > 0 || u.scheme == "https"
 	if upgraded {
 		vAssert(len(dials) >= 1, "an https request is dialled through the ECH dialer")
+		// every record compatible with h2 / http/1.1 is tried (all dials fail here), with its own ECH list;
+		// a dial without ECH happens only when no compatible record exists
+		nCompat := 0
+		for _, h := range service {
+			compat := len(h.ALPN) == 0 || !h.NoDefaultALPN
+			for _, a := range h.ALPN {
+				if a == "h2" || a == "http/1.1" {
+					compat = true
+				}
+			}
+			if !compat {
+				continue
+			}
+			nCompat++
+			if nCompat > 1 {
+				continue // (all records resolve to one address here: later ones are duplicates of the first)
+			}
+			found := false
+			for _, e := range dialedECH {
+				found = found || (e != nil && vBytesEq(e, h.ECH))
+			}
+			vAssert(found, "the most preferred record compatible with the chosen protocol is tried with its own ECH config list")
+		}
+		wantPort := "443"
+		if p := parsed.Port(); p != "" {
+			wantPort = p
+		}
 		for i, d := range dials {
+			vAssert(dialedECH[i] != nil || nCompat == 0, "an attempt without ECH is made only when no usable HTTPS record exists")
+			vAssert(d.network == "tcp" && d.addr == "10.0.0.9:"+wantPort, "the resolved address is dialled on the URL's port (443 by default, also after the upgrade from http)")
 			vAssert(d.serverName == u.hostname, "the server is authenticated against the URL's host name")
 			// the dialled target must stem from a record compatible with h2 / http/1.1 (or be the plain address)
 			if dialedECH[i] != nil {
